@@ -275,12 +275,18 @@ func (r *run) answerFor(req *dns.Msg, key string, raw, aux, id int64) *dns.Msg {
 	switch {
 	case key == r.in.NegKey:
 		m.Rcode = dns.RcodeNameError
+		// the second lifetime source of a negative answer is either the SOA minimum or (every other
+		// entry) the expiration of the RRSIG covering the authority section's SOA
 		min := ttl
-		if aux != noAux {
+		viaSig := aux != noAux && id%2 == 1
+		if aux != noAux && !viaSig {
 			min = uint32(aux)
 		}
 		m.Ns = []dns.RR{&dns.SOA{Hdr: dns.RR_Header{Name: "ex.", Rrtype: dns.TypeSOA, Class: dns.ClassINET, Ttl: ttl},
 			Ns: "ns.ex.", Mbox: "h.ex.", Serial: uint32(id), Refresh: 60, Retry: 60, Expire: 60, Minttl: min}}
+		if viaSig {
+			m.Ns = append(m.Ns, sigRR("ex.", dns.TypeSOA, "ex.", ttl, aux, id))
+		}
 	case r.target(key) != "":
 		m.Answer = []dns.RR{
 			&dns.CNAME{Hdr: dns.RR_Header{Name: name, Rrtype: dns.TypeCNAME, Class: dns.ClassINET, Ttl: ttl}, Target: qname(r.target(key))},
